@@ -173,11 +173,11 @@ impl SourceView {
     /// Returns a requested minified line.
     pub fn get_line(&self, idx: u32) -> Option<&str> {
         let idx = idx as usize;
-        {
-            let lines = self.lines.lock().unwrap();
-            if idx < lines.len() {
-                return Some(lines[idx]);
-            }
+        // hold the lock across the cache check, the finished check and the indexing
+        // loop so that no other thread can advance `processed_until` in between
+        let mut lines = self.lines.lock().unwrap();
+        if idx < lines.len() {
+            return Some(lines[idx]);
         }
 
         // fetched everything
@@ -185,7 +185,6 @@ impl SourceView {
             return None;
         }
 
-        let mut lines = self.lines.lock().unwrap();
         let mut done = false;
 
         while !done {
